@@ -682,8 +682,8 @@ func init() {
 							g    orb.MultiLineString
 							want orb.Point
 						}{
-							"an empty line and a one-point line":         {orb.MultiLineString{{}, {a}}, a},
-							"a one-point line between two empty lines":   {orb.MultiLineString{{}, {a, a}, nil}, a},
+							"an empty line and a one-point line":           {orb.MultiLineString{{}, {a}}, a},
+							"a one-point line between two empty lines":     {orb.MultiLineString{{}, {a, a}, nil}, a},
 							"empty lines around a line of positive length": {orb.MultiLineString{{}, {a, bq}, {}}, orb.Point{(a[0] + bq[0]) / 2, (a[1] + bq[1]) / 2}},
 						} {
 							if a == bq {
